@@ -267,6 +267,70 @@ def extract():
         record("coverage.shuffle_gates", rel7, t7, re.search(r"enum\s+ShardedShuffleStep", t7), {"commit": commit_gates, "key": key_gate})
     except KeyError as e:
         fail("coverage.shuffle_gates", f"shuffle step {e} not found in {rel7}")
+    # 7. (b14, seed C02c) multiplications that bypass the context-dispatched `SecureMul::multiply`: every call site, in
+    #    non-test code below ipa-core/src/protocol, of the routines that do NOT record their intermediates in a DZKP
+    #    batch (`semi_honest_multiply` = `sh_multiply`, and the bare `multiplication_protocol`); what a DZKP-upgraded
+    #    malicious context dispatches `multiply` to; and the statements of `zkp_multiply` (multiply, build the segment,
+    #    push it into the batch).
+    import os
+    from extract import SRC
+    raw = ("semi_honest_multiply", "sh_multiply", "multiplication_protocol")
+    sites = []
+    call_re = re.compile(r"(?<![\w])(" + "|".join(raw) + r")\s*(?:::<[^;{}()]*?>)?\s*\(")
+    alias_re = re.compile(r"\b(" + "|".join(raw) + r")\s+as\s+(\w+)")
+    for root, _, files in sorted(os.walk(os.path.join(SRC, "protocol"))):
+        for fn in sorted(files):
+            if not fn.endswith(".rs"):
+                continue
+            relf = os.path.relpath(os.path.join(root, fn), SRC)
+            tf = read(relf)
+            code = tf.split("#[cfg(all(test")[0]
+            # drop line comments (keeps offsets irrelevant: we only need order and enclosing fn)
+            code = "\n".join(l.split("//")[0] for l in code.split("\n"))
+            for ma in alias_re.finditer(code):
+                if not (relf == "protocol/basics/mul/mod.rs" and ma.group(1) == "sh_multiply" and ma.group(2) == "semi_honest_multiply"):
+                    fail("coverage.mul.alias", f"{relf}: `{ma.group(0)}` renames an unrecorded multiplication routine")
+            for mc in call_re.finditer(code):
+                pre = code[:mc.start()]
+                if re.search(r"fn\s+$", pre):
+                    continue  # the definition itself
+                fns = re.findall(r"\bfn\s+(\w+)", pre)
+                sites.append((relf, fns[-1] if fns else "-", mc.group(1)))
+                record("coverage.mul.site." + relf + ":" + (fns[-1] if fns else "-") + ":" + str(len(sites)), relf, code, mc, mc.group(1))
+    if not sites:
+        fail("coverage.mul.sites", "no call site of semi_honest_multiply / multiplication_protocol found at all (scan broken?)")
+    relz = "protocol/basics/mul/dzkp_malicious.rs"
+    tz = read(relz)
+    mz = re.search(r"pub async fn zkp_multiply.*?\n\}\n", tz, re.S)
+    zkp_body = []
+    if not mz:
+        fail("coverage.mul.zkp_multiply", "zkp_multiply not found")
+    else:
+        bz = "\n".join(l.split("//")[0] for l in mz.group(0).split("\n"))
+        mstart = re.search(r"let z = ", bz)
+        if not mstart:
+            fail("coverage.mul.zkp_multiply", "`let z = …` not found in zkp_multiply")
+        else:
+            tail = bz[mstart.start():].rsplit("}", 1)[0]
+            zkp_body = [re.sub(r"\s+", " ", st).strip() + (";" if i < tail.count(";") else "") for i, st in enumerate(tail.split(";")) if st.strip()]
+            record("coverage.mul.zkp_multiply", relz, tz, mz, zkp_body)
+    dispatch = []
+    md = re.search(r"SecureMul<DZKPUpgradedMaliciousContext<'a, B>> for Replicated<F, N>\s*\{.*?\n\}\n", tz, re.S)
+    if md:
+        calls = re.findall(r"\b(\w+)\(ctx, record_id, self, rhs\)\.await", md.group(0))
+        if len(calls) == 1:
+            dispatch.append(("SecureMul", calls[0]))
+            record("coverage.mul.dispatch.SecureMul", relz, tz, md, calls[0])
+    relm = "protocol/basics/mul/mod.rs"
+    tmm = read(relm)
+    mb = re.search(r"BooleanArrayMul<DZKPUpgradedMaliciousContext<'a, B>>\s*for Replicated<\$vec>\s*\{.*?\n        \}\n", tmm, re.S)
+    if mb:
+        calls = re.findall(r"\n\s*(\w+)\(ctx, record_id, a, b\)\s*\n", mb.group(0))
+        if len(calls) == 1:
+            dispatch.append(("BooleanArrayMul", calls[0]))
+            record("coverage.mul.dispatch.BooleanArrayMul", relm, tmm, mb, calls[0])
+    if len(dispatch) != 2:
+        fail("coverage.mul.dispatch", f"the multiply impls of DZKPUpgradedMaliciousContext (SecureMul in mul/dzkp_malicious.rs, BooleanArrayMul in mul/mod.rs) were not both found: {dispatch}")
     lines = [
         "/-! GENERATED by tools/extractors/c02_coverage.py from ipa-core/src/protocol/hybrid/*.rs — do not edit. -/",
         "namespace IpaVerif.Generated",
@@ -296,5 +360,18 @@ def extract():
               "def shuffleCommitGates : List (List String) := [" + ", ".join(lst(g) for g in commit_gates) + "]", "",
               "/-- gate (below the shuffle's step) on which the MAC keys are opened -/",
               "def shuffleKeyGate : List String := " + lst(key_gate), "",
+              "/-- every call site, in non-test code below ipa-core/src/protocol, of a multiplication routine that does NOT record its",
+              "intermediates in a DZKP batch (`semi_honest_multiply` = `sh_multiply`, `multiplication_protocol`): (file, enclosing fn, callee) -/",
+              "def directMulSites : List (String × String × String) := ["]
+    def q(x):
+        return '"' + x.replace("\\", "\\\\").replace('"', '\\"') + '"'
+    lines += ["  (" + q(f) + ", " + q(g) + ", " + q(c) + ")" + ("," if i + 1 < len(sites) else "") for i, (f, g, c) in enumerate(sites)]
+    lines += ["]", "",
+              "/-- what `multiply` of a DZKP-upgraded malicious context is dispatched to: (trait, routine) -/",
+              "def dzkpDispatch : List (String × String) := [" + ", ".join("(" + q(a) + ", " + q(b) + ")" for a, b in dispatch) + "]", "",
+              "/-- the statements of `zkp_multiply` from the multiplication on (comments and whitespace removed) -/",
+              "def zkpMultiplyBody : List String := ["]
+    lines += ["  " + q(st) + ("," if i + 1 < len(zkp_body) else "") for i, st in enumerate(zkp_body)]
+    lines += ["]", "",
               "end IpaVerif.Generated", ""]
     return {"Coverage.lean": "\n".join(lines)}
